@@ -19,7 +19,10 @@ structure SafeNotification (o : Opaque) (n : Notification) : Prop where
   extras  : ∀ kv ∈ n.extras, safeStr kv.2 = true
   parts   : ∀ p ∈ n.result.partitions, SafePart p
   maxlag  : ∀ p, n.result.maxlag = some p → SafePart p
-  floats  : ∀ x, finite32 (o.f32 x) = true
+  /-- the completeness values that occur in the notification are finite floats -/
+  floats  : finite32 (o.f32 n.result.complete) = true ∧
+            (∀ p ∈ n.result.partitions, finite32 (o.f32 p.st.complete) = true) ∧
+            (∀ p, n.result.maxlag = some p → finite32 (o.f32 p.st.complete) = true)
 
 theorem commitSafe (o : Opaque) (c : Option Commit) : SafeVal (commitVal o c) := by
   cases c with
@@ -41,7 +44,7 @@ theorem commitSafe (o : Opaque) (c : Option Commit) : SafeVal (commitVal o c) :=
         simp only [List.mem_cons, List.mem_nil_iff, or_false] at hfv
         subst hfv; exact .uint _
 
-theorem partSafe (o : Opaque) (p : Group.PStat) (hp : SafePart p) (hf : ∀ x, finite32 (o.f32 x) = true) :
+theorem partSafe (o : Opaque) (p : Group.PStat) (hp : SafePart p) (hf : finite32 (o.f32 p.st.complete) = true) :
     SafeVal (partVal o p) := by
   refine .ref (.obj ?_)
   intro fv hfv
@@ -55,7 +58,7 @@ theorem partSafe (o : Opaque) (p : Group.PStat) (hp : SafePart p) (hf : ∀ x, f
   · exact commitSafe o _
   · exact commitSafe o _
   · exact .uint _
-  · exact .float (hf _)
+  · exact .float hf
 
 theorem dataSafe (o : Opaque) (n : Notification) (h : SafeNotification o n) : SafeVal (dataVal o n) := by
   refine .obj ?_
@@ -74,16 +77,16 @@ theorem dataSafe (o : Opaque) (n : Notification) (h : SafeNotification o n) : Sa
     · exact .str h.cluster
     · exact .str h.group
     · exact .status _
-    · exact .float (h.floats _)
+    · exact .float h.floats.1
     · refine .list ?_
       intro v hv
       simp only [List.mem_map] at hv
       obtain ⟨p, hp, rfl⟩ := hv
-      exact partSafe o p (h.parts p hp) h.floats
+      exact partSafe o p (h.parts p hp) (h.floats.2.1 p hp)
     · exact .int _ _
     · cases hm : n.result.maxlag with
       | none => exact .nil
-      | some p => exact partSafe o p (h.maxlag p hm) h.floats
+      | some p => exact partSafe o p (h.maxlag p hm) (h.floats.2.2 p hm)
     · exact .uint _
 
 end Burrow.Proofs.TmplData
